@@ -1579,6 +1579,46 @@ struct OEth {
     back_bytes: Vec<u8>,
 }
 
+/// The generic ARP packet compares and hashes by hand (its address buffers are larger than the
+/// addresses). Two packets are equal exactly if their encodings are: a packet that differs in one
+/// octet of one field is a different packet, equal packets hash equally.
+fn arp_eq_fault(p: &ArpPacket) -> Option<String> {
+    use std::hash::{Hash, Hasher};
+    let h = |x: &ArpPacket| {
+        let mut s = std::collections::hash_map::DefaultHasher::new();
+        x.hash(&mut s);
+        s.finish()
+    };
+    let bytes = p.to_bytes().to_vec();
+    let same = ArpPacket::from_slice(&bytes).ok()?;
+    if same != *p || h(&same) != h(p) {
+        return Some("a packet decoded from to_bytes() is not equal to / hashes differently from the original".into());
+    }
+    let (hl, pl) = (p.hw_addr_size() as usize, p.protocol_addr_size() as usize);
+    // one position per field (first and last octet of the addresses)
+    let mut pos = vec![0usize, 1, 2, 3, 6, 7];
+    let mut o = 8;
+    for l in [hl, pl, hl, pl] {
+        if l > 0 {
+            pos.push(o);
+            pos.push(o + l - 1);
+        }
+        o += l;
+    }
+    for k in pos {
+        let mut b2 = bytes.clone();
+        b2[k] ^= 0x40;
+        let q = match ArpPacket::from_slice(&b2) {
+            Ok(q) => q,
+            Err(_) => continue,
+        };
+        if q == *p || *p == q {
+            return Some(format!("packets that differ in octet {} ({:02x} vs {:02x}) compare equal", k, bytes[k], b2[k]));
+        }
+    }
+    None
+}
+
 struct OArp {
     head: (u16, u16, u8, u8, u16),
     addrs: [R; 4],
@@ -1590,6 +1630,8 @@ struct OArp {
     pkt_len: usize,
     /// `ArpPacket::from_slice` gives the same packet
     pkt_from_slice_same: Option<bool>,
+    /// `==` / `Hash` of the owned packet against packets that differ in one octet
+    eq_fault: Option<String>,
     eth: Result<OEth, String>,
 }
 
@@ -1655,6 +1697,7 @@ fn check_arp(rep: &mut Report, st: &mut St, b: &[u8]) -> bool {
                 pkt_bytes: p.to_bytes().to_vec(),
                 pkt_len: p.packet_len(),
                 pkt_from_slice_same: ArpPacket::from_slice(b).ok().map(|q| q == p),
+                eq_fault: arp_eq_fault(&p),
                 eth,
             })
         }
@@ -1719,6 +1762,11 @@ fn check_arp(rep: &mut Report, st: &mut St, b: &[u8]) -> bool {
     if !ok {
         return false;
     }
+    if let Some(f) = &o.eq_fault {
+        rep.violation("arp|ArpPacket|eq_hash", format!("ArpPacket == / Hash: {}", f), b);
+        return false;
+    }
+    rep.count("arp.eq_distinguishes_every_field");
     rep.count("arp.ok");
     if b.len() > w.total {
         rep.count("arp.trailing_bytes_cut");
